@@ -2,3 +2,4 @@ pub mod filter;
 pub mod model;
 pub mod report;
 pub mod rng;
+pub mod legs;
